@@ -854,31 +854,29 @@ Proof.
   - intros s v Hc H. apply dec_small_unique in H; [|exact Hc]. destruct H as (z & -> & -> & Hz).
     split; [apply int_below_intro; lia|reflexivity].
   - (* U64 *) intros s v Hc H. cbn [decode] in H. unfold dec_big in H. destruct s as [|a [|b [|c r]]]; cbn [is_nil zlen] in H; try discriminate H.
-    + change (1 + 0 <? 2) with true in H. discriminate.
     + change (1 + (1 + 0) <? 2) with false in H. change (2 <? 1 + (1 + 0)) with false in H. cbv iota in H. cbn [existsb] in H.
       destruct (4294967295 <? a) eqn:Ea; [discriminate|]. destruct (4294967295 <? b) eqn:Eb; [discriminate|]. cbn [orb] in H.
-      inversion H; subst. cbn [limbs_value]. apply canon_cons in Hc. destruct Hc as [Ha Hc]. apply canon_cons in Hc. destruct Hc as [Hb _].
+      cbn [limbs_value] in H. assert (Hv : v = VInt (a + 4294967296 * (b + 4294967296 * 0))) by congruence. subst v. clear H.
+      apply canon_cons in Hc. destruct Hc as [Ha Hc]. apply canon_cons in Hc. destruct Hc as [Hb _].
       split; [apply int_below_intro; blia|]. cbn [encode]. rewrite limb_low by blia. rewrite (limb_shift a _ 0) by blia.
       rewrite limb_low by blia. reflexivity.
-    + exfalso. pose proof (zlen_nonneg r). rewrite zlen_cons in H. destruct (1 + (1 + (1 + zlen r)) <? 2) eqn:E1; [blia|].
+    + exfalso. pose proof (zlen_nonneg r). destruct (1 + (1 + (1 + zlen r)) <? 2) eqn:E1; [blia|].
       destruct (2 <? 1 + (1 + (1 + zlen r))) eqn:E2; [discriminate|blia].
   - (* U128 *) intros s v Hc H. cbn [decode] in H. unfold dec_big in H.
     destruct s as [|a [|b [|c [|d [|e r]]]]]; cbn [is_nil zlen] in H; try discriminate H.
-    + change (1 + 0 <? 4) with true in H. discriminate.
-    + change (1 + (1 + 0) <? 4) with true in H. discriminate.
-    + change (1 + (1 + (1 + 0)) <? 4) with true in H. discriminate.
     + change (1 + (1 + (1 + (1 + 0))) <? 4) with false in H. change (4 <? 1 + (1 + (1 + (1 + 0)))) with false in H. cbv iota in H.
       cbn [existsb] in H.
       destruct (4294967295 <? a) eqn:Ea; [discriminate|]. destruct (4294967295 <? b) eqn:Eb; [discriminate|].
       destruct (4294967295 <? c) eqn:Ec; [discriminate|]. destruct (4294967295 <? d) eqn:Ed; [discriminate|]. cbn [orb] in H.
-      inversion H; subst. cbn [limbs_value].
+      cbn [limbs_value] in H.
+      assert (Hv : v = VInt (a + 4294967296 * (b + 4294967296 * (c + 4294967296 * (d + 4294967296 * 0))))) by congruence. subst v. clear H.
       apply canon_cons in Hc. destruct Hc as [Ha Hc]. apply canon_cons in Hc. destruct Hc as [Hb Hc].
       apply canon_cons in Hc. destruct Hc as [Hc' Hc]. apply canon_cons in Hc. destruct Hc as [Hd _].
       split; [apply int_below_intro; blia|]. cbn [encode].
       rewrite (limb_shift a _ 2) by blia. rewrite (limb_shift b _ 1) by blia. rewrite (limb_shift c _ 0) by blia.
       rewrite (limb_shift a _ 1) by blia. rewrite (limb_shift b _ 0) by blia.
       rewrite (limb_shift a _ 0) by blia. rewrite !limb_low by blia. reflexivity.
-    + exfalso. pose proof (zlen_nonneg r). rewrite zlen_cons in H. destruct (1 + (1 + (1 + (1 + (1 + zlen r)))) <? 4) eqn:E1; [blia|].
+    + exfalso. pose proof (zlen_nonneg r). destruct (1 + (1 + (1 + (1 + (1 + zlen r)))) <? 4) eqn:E1; [blia|].
       destruct (4 <? 1 + (1 + (1 + (1 + (1 + zlen r))))) eqn:E2; [discriminate|blia].
   - (* Bool *) intros s v Hc H. cbn [decode] in H. destruct s as [|x [|y r]]; try discriminate. cbn [dec_bool] in H.
     destruct (x =? 0) eqn:E0; [inversion H; assert (x = 0) by blia; subst; split; reflexivity|].
@@ -890,7 +888,7 @@ Proof.
     destruct (x =? 0) eqn:E0.
     + destruct (is_nil r) eqn:En; [|discriminate]. apply is_nil_true in En. inversion H; subst. assert (x = 0) by blia. subst. split; reflexivity.
     + destruct (x =? 1) eqn:E1; [|discriminate]. apply obind_ok in H. destruct H as (w & Hw & H). inversion H; subst.
-      destruct (IH r w Hc Hw) as [Ht He]. assert (x = 1) by blia. subst. split; [exact Ht|]. cbn [encode]. rewrite He. reflexivity.
+      destruct (IH r w Hc Hw) as [Ht He]. assert (x = 1) by blia. subst x. split; [exact Ht|]. cbn [encode]. rewrite He. reflexivity.
   - (* Vec *) intros t IH s v Hc H. cbn [decode] in H. apply obind_ok in H. destruct H as (l & Hl & H). inversion H; subst.
     destruct s as [|n r]; [discriminate|]. cbn [dec_vec] in Hl. apply canon_cons in Hc. destruct Hc as [Hn Hc].
     apply dec_list_unique in Hl; [|exact IH|lia|exact Hc]. destruct Hl as (Hall & He & Hz).
@@ -931,3 +929,311 @@ Proof.
     + unfold typed. cbn [has_type]. rewrite znth_opt_map, Ed. cbn [option_map]. apply apply_all_Forall2. exact HT.
     + rewrite (encode_enum vs d _ fs Ed). rewrite He. reflexivity.
 Qed.
+
+(* ================================================================ decode_total (C13) *)
+Definition B32 : Z := 4294967296.
+Definition short (s : list Z) : Prop := canon s /\ zlen s < B32.
+Definition total_at (chk : bool) (t : ty) : Prop := forall s, short s -> decode chk t s <> Panic.
+
+Lemma short_ztake k s : short s -> short (ztake k s).
+Proof. intros [H1 H2]. split; [apply canon_ztake; exact H1|]. pose proof (zlen_ztake_le k s). lia. Qed.
+Lemma short_zdrop k s : short s -> short (zdrop k s).
+Proof. intros [H1 H2]. split; [apply canon_zdrop; exact H1|]. pose proof (zlen_zdrop_le k s). lia. Qed.
+Lemma short_tail x s : short (x :: s) -> short s.
+Proof. intros [H1 H2]. apply canon_cons in H1. rewrite zlen_cons in H2. split; [apply H1|lia]. Qed.
+Lemma short_nil : short [].
+Proof. split; [constructor|reflexivity]. Qed.
+
+Lemma dec_fields_total chk ts : Forall (total_at chk) ts -> forall s, short s -> dec_fields (decs chk ts) s <> Panic.
+Proof.
+  induction 1 as [|t ts Ht _ IH]; intros s Hs; cbn [decs map dec_fields].
+  - destruct (is_nil s); congruence.
+  - fold (decs chk ts). destruct (field_header (static_length t) s) as [[len s1]|] eqn:Eh; [|congruence].
+    assert (Hs1 : short s1).
+    { unfold field_header in Eh. destruct (static_length t); [inversion Eh; subst; exact Hs|].
+      destruct s as [|x s']; [discriminate|]. inversion Eh; subst. eapply short_tail; exact Hs. }
+    destruct (zlen s1 <? len); [congruence|].
+    apply obind_not_panic; [apply Ht; apply short_ztake; exact Hs1|]. intros v _.
+    apply obind_not_panic; [apply IH; apply short_zdrop; exact Hs1|]. intros; congruence.
+Qed.
+
+Lemma chunks_exact_Forall (Pc : list Z -> Prop) w :
+  (forall k s, Pc s -> Pc (ztake k s)) -> (forall k s, Pc s -> Pc (zdrop k s)) ->
+  forall fuel s, Pc s -> Forall Pc (chunks_exact fuel w s).
+Proof.
+  intros H1 H2. induction fuel as [|f IH]; intros s Hs; cbn [chunks_exact]; [constructor|].
+  destruct (zlen s <? w); [constructor|]. constructor; [apply H1; exact Hs|apply IH; apply H2; exact Hs].
+Qed.
+
+Lemma dec_list_static_total w dec n s :
+  (forall c, short c -> dec c <> Panic) -> short s -> dec_list_static w dec n s <> Panic.
+Proof.
+  intros Hd Hs. unfold dec_list_static.
+  destruct (18446744073709551616 <=? n * w); [congruence|]. destruct (zlen s <? n * w); [congruence|].
+  destruct (n * w <? zlen s); [congruence|]. destruct (w =? 0).
+  - destruct (n <=? 0); [congruence|]. apply obind_not_panic; [apply Hd; exact short_nil|]. intros; congruence.
+  - apply map_outcome_not_panic. eapply Forall_impl; [|apply (chunks_exact_Forall short w short_ztake short_zdrop); exact Hs].
+    exact Hd.
+Qed.
+
+Lemma dec_list_dyn_total chk dec : (forall c, short c -> dec c <> Panic) ->
+  forall fuel tot n idx rest, short rest -> tot = idx + zlen rest -> 0 <= idx -> tot < B32 -> (length rest <= fuel)%nat ->
+  dec_list_dyn chk fuel dec tot n idx rest <> Panic.
+Proof.
+  intros Hd. induction fuel as [|f IH]; intros tot n idx rest Hs Htot Hidx Hb Hf.
+  - destruct rest; [|cbn [length] in Hf; lia]. cbn [dec_list_dyn]. destruct (n <=? 0); cbn [is_nil]; congruence.
+  - cbn [dec_list_dyn]. destruct (n <=? 0); [destruct (is_nil rest); congruence|].
+    destruct rest as [|il rest1]; [congruence|]. pose proof Hs as [Hc _]. apply canon_cons in Hc. destruct Hc as [Hil _].
+    rewrite zlen_cons in Htot. pose proof (zlen_nonneg rest1) as Hnn. unfold B32, P in *.
+    destruct (18446744073709551616 <=? idx + 1 + il) eqn:E1; [exfalso; blia|].
+    destruct (tot <? idx + 1 + il) eqn:E2; [congruence|].
+    apply short_tail in Hs.
+    apply obind_not_panic; [apply Hd; apply short_ztake; exact Hs|]. intros v _.
+    apply obind_not_panic; [|intros; congruence].
+    apply IH; [apply short_zdrop; exact Hs|rewrite zlen_zdrop by blia; lia|lia|unfold B32; lia|].
+    cbn [length] in Hf. pose proof (length_zdrop_le il rest1). lia.
+Qed.
+
+Lemma dec_list_total chk t n s : total_at chk t -> short s -> dec_list chk (static_length t) (decode chk t) n s <> Panic.
+Proof.
+  intros HQ Hs. unfold dec_list. destruct (static_length t).
+  - apply dec_list_static_total; assumption.
+  - destruct Hs as [Hc Hl]. apply dec_list_dyn_total; [exact HQ|split; assumption|lia|lia|exact Hl|lia].
+Qed.
+
+Ltac no_panic_ifs := repeat match goal with
+  | |- context [if ?c then _ else _] => destruct c
+  end; congruence.
+
+Theorem decode_total chk : forall t, total_at chk t.
+Proof.
+  apply ty_nested_ind; unfold total_at.
+  - intros s _. cbn [decode]. destruct s as [|x [|y r]]; cbn; congruence.
+  - intros s _. cbn [decode]. destruct s as [|x [|y r]]; cbn [dec_small]; no_panic_ifs.
+  - intros s _. cbn [decode]. destruct s as [|x [|y r]]; cbn [dec_small]; no_panic_ifs.
+  - intros s _. cbn [decode]. destruct s as [|x [|y r]]; cbn [dec_small]; no_panic_ifs.
+  - intros s _. cbn [decode]. unfold dec_big. no_panic_ifs.
+  - intros s _. cbn [decode]. unfold dec_big. no_panic_ifs.
+  - intros s _. cbn [decode]. destruct s as [|x [|y r]]; cbn [dec_bool]; no_panic_ifs.
+  - intros s _. cbn [decode]. destruct s; cbn; congruence.
+  - intros t IH s Hs. cbn [decode]. apply IH. exact Hs.
+  - intros t IH s Hs. cbn [decode]. destruct s as [|x r]; cbn [dec_option]; [congruence|].
+    destruct (x =? 0); [destruct (is_nil r); congruence|]. destruct (x =? 1); [|congruence].
+    apply obind_not_panic; [apply IH; eapply short_tail; exact Hs|]. intros; congruence.
+  - intros t IH s Hs. cbn [decode]. apply obind_not_panic; [|intros; congruence].
+    destruct s as [|n r]; cbn [dec_vec]; [congruence|]. apply dec_list_total; [exact IH|eapply short_tail; exact Hs].
+  - intros n t IH s Hs. cbn [decode]. unfold dec_array.
+    match goal with |- context [if ?c then _ else _] => destruct c end; [congruence|].
+    apply obind_not_panic; [apply dec_list_total; assumption|]. intros l _. destruct (zlen l =? Z.of_N n); congruence.
+  - intros ts IH s Hs. cbn [decode]. fold (decs chk ts). unfold dec_record. rewrite decs_rev.
+    apply obind_not_panic; [apply dec_fields_total; [apply Forall_rev; exact IH|exact Hs]|]. intros; congruence.
+  - intros t IH s Hs. cbn [decode]. unfold dec_poly. destruct s as [|ind r]; [congruence|].
+    destruct (zlen (ind :: r) =? ind + 1); [|congruence]. apply obind_not_panic.
+    + destruct r as [|n r']; cbn [dec_vec]; [congruence|]. apply dec_list_total; [exact IH|].
+      eapply short_tail. eapply short_tail. exact Hs.
+    + intros l _. destruct (last_nonzero l); congruence.
+  - intros n s Hs. cbn [decode]. unfold dec_u32s.
+    match goal with |- context [if ?c then _ else _] => destruct c end; [congruence|].
+    destruct (zlen s <? Z.of_N n); [congruence|]. destruct (Z.of_N n <? zlen s); [congruence|].
+    apply obind_not_panic; [|intros; congruence]. apply map_outcome_not_panic. apply Forall_forall. intros x _.
+    cbn [dec_small]. destruct (4294967295 <? x); congruence.
+  - intros ts IH s Hs. cbn [decode]. fold (decs chk ts). unfold dec_record. rewrite decs_rev.
+    apply obind_not_panic; [apply dec_fields_total; [apply Forall_rev; exact IH|exact Hs]|]. intros; congruence.
+  - intros vs IH s Hs. cbn [decode]. unfold dec_enum. destruct s as [|d r]; [congruence|].
+    rewrite (znth_opt_map (fun fs => map (fun t => (static_length t, decode chk t)) fs)).
+    destruct (znth_opt d vs) as [fs|] eqn:Ed; cbn [option_map]; [|congruence]. fold (decs chk fs). rewrite decs_rev.
+    rewrite Forall_forall in IH.
+    apply obind_not_panic; [|intros; congruence]. apply dec_fields_total; [apply Forall_rev; apply IH; eapply znth_opt_In; exact Ed|].
+    eapply short_tail; exact Hs.
+Qed.
+
+(* ================================================================ strictness (C13) *)
+(* whatever is not THE encoding of a typed value is rejected *)
+Theorem strict chk t s : short s -> (forall v, typed t v -> encode t v <> s) -> decode chk t s = Err.
+Proof.
+  intros Hs Hne. destruct (decode chk t s) as [v| |] eqn:E; [|reflexivity|].
+  - exfalso. destruct (unique chk t s v (proj1 Hs) E) as [Ht He]. exact (Hne v Ht He).
+  - exfalso. exact (decode_total chk t s Hs E).
+Qed.
+
+(* accepted implies canonical re-encoding; so decode is injective on accepted sequences *)
+Corollary decode_injective chk t s1 s2 v : canon s1 -> canon s2 ->
+  decode chk t s1 = Ok v -> decode chk t s2 = Ok v -> s1 = s2.
+Proof.
+  intros H1 H2 E1 E2. destruct (unique chk t s1 v H1 E1) as [_ <-]. destruct (unique chk t s2 v H2 E2) as [_ <-]. reflexivity.
+Qed.
+
+Corollary encode_injective t v1 v2 : typed t v1 -> typed t v2 -> zlen (encode t v1) < B64 ->
+  encode t v1 = encode t v2 -> v1 = v2.
+Proof.
+  intros H1 H2 Hl E. pose proof (roundtrip false t v1 H1 Hl) as R1. rewrite E in R1, Hl.
+  pose proof (roundtrip false t v2 H2 Hl) as R2. congruence.
+Qed.
+
+Lemma strict_static_length chk t n s : static_length t = Some n -> short s -> zlen s <> n -> decode chk t s = Err.
+Proof.
+  intros Hn Hs Hne. apply strict; [exact Hs|]. intros v Hv He. apply Hne. rewrite <- He. apply static_len; assumption.
+Qed.
+
+Lemma strict_limb_u64 chk a b : 4294967295 < a \/ 4294967295 < b -> decode chk TU64 [a; b] = Err.
+Proof.
+  intros H. cbn [decode]. unfold dec_big. cbn [is_nil zlen existsb].
+  change (1 + (1 + 0) <? 2) with false. change (2 <? 1 + (1 + 0)) with false. cbv iota.
+  destruct (4294967295 <? a) eqn:Ea; [reflexivity|]. destruct (4294967295 <? b) eqn:Eb; [reflexivity|]. exfalso. blia.
+Qed.
+
+Lemma strict_limb_u128 chk a b c d :
+  4294967295 < a \/ 4294967295 < b \/ 4294967295 < c \/ 4294967295 < d -> decode chk TU128 [a; b; c; d] = Err.
+Proof.
+  intros H. cbn [decode]. unfold dec_big. cbn [is_nil zlen existsb].
+  change (1 + (1 + (1 + (1 + 0))) <? 4) with false. change (4 <? 1 + (1 + (1 + (1 + 0)))) with false. cbv iota.
+  destruct (4294967295 <? a) eqn:Ea; [reflexivity|]. destruct (4294967295 <? b) eqn:Eb; [reflexivity|].
+  destruct (4294967295 <? c) eqn:Ec; [reflexivity|]. destruct (4294967295 <? d) eqn:Ed; [reflexivity|]. exfalso. blia.
+Qed.
+
+Lemma strict_small_range chk x :
+  (255 < x -> decode chk TU8 [x] = Err) /\ (65535 < x -> decode chk TU16 [x] = Err) /\ (4294967295 < x -> decode chk TU32 [x] = Err).
+Proof.
+  repeat split; intros H; cbn [decode dec_small];
+    match goal with |- context [if ?c then _ else _] => destruct c eqn:E end; try reflexivity; exfalso; blia.
+Qed.
+
+Lemma strict_u32s_limb chk n s x : In x s -> 4294967295 < x -> decode chk (TU32s n) s = Err.
+Proof.
+  intros Hin Hx. cbn [decode]. unfold dec_u32s.
+  match goal with |- context [if ?c then _ else _] => destruct c end; [reflexivity|].
+  destruct (zlen s <? Z.of_N n); [reflexivity|]. destruct (Z.of_N n <? zlen s); [reflexivity|].
+  assert (E : map_outcome (fun x => dec_small 4294967295 [x]) s = Err).
+  { induction s as [|y r IH]; [destruct Hin|]. cbn [map_outcome].
+    change (dec_small 4294967295 [y]) with (if 4294967295 <? y then @Err value else Ok (VInt y)).
+    destruct (4294967295 <? y) eqn:Ey; [reflexivity|].
+    cbn [obind]. destruct Hin as [->|Hin]; [exfalso; blia|]. rewrite (IH Hin). reflexivity. }
+  rewrite E. reflexivity.
+Qed.
+
+Lemma strict_bool_tag chk x : 1 < x -> decode chk TBool [x] = Err.
+Proof. intros H. cbn [decode dec_bool]. destruct (x =? 0) eqn:E0; [exfalso; blia|]. destruct (x =? 1) eqn:E1; [exfalso; blia|reflexivity]. Qed.
+
+Lemma strict_option_tag chk t x r : 1 < x -> decode chk (TOption t) (x :: r) = Err.
+Proof. intros H. cbn [decode dec_option]. destruct (x =? 0) eqn:E0; [exfalso; blia|]. destruct (x =? 1) eqn:E1; [exfalso; blia|reflexivity]. Qed.
+
+Lemma strict_option_none_extra chk t r : r <> [] -> decode chk (TOption t) (0 :: r) = Err.
+Proof. intros H. cbn [decode dec_option]. change (0 =? 0) with true. cbv iota. destruct r; [congruence|reflexivity]. Qed.
+
+Lemma strict_enum_discriminant chk vs d r : zlen vs <= d -> decode chk (TEnum vs) (d :: r) = Err.
+Proof. intros H. cbn [decode dec_enum]. rewrite znth_opt_none; [reflexivity|]. rewrite zlen_map. exact H. Qed.
+
+(* inconsistent length prefixes *)
+Lemma strict_vec_count chk t w n r : static_length t = Some w -> zlen r <> n * w -> decode chk (TVec t) (n :: r) = Err.
+Proof.
+  intros Hw Hne. cbn [decode dec_vec]. unfold dec_list. rewrite Hw. unfold dec_list_static.
+  destruct (18446744073709551616 <=? n * w); [reflexivity|]. destruct (zlen r <? n * w) eqn:E1; [reflexivity|].
+  destruct (n * w <? zlen r) eqn:E2; [reflexivity|]. exfalso. blia.
+Qed.
+
+Lemma strict_array_length chk t w n s : static_length t = Some w -> zlen s <> Z.of_N n * w -> decode chk (TArray n t) s = Err.
+Proof.
+  intros Hw Hne. cbn [decode]. unfold dec_array. match goal with |- context [if ?c then _ else _] => destruct c end; [reflexivity|].
+  unfold dec_list. rewrite Hw. unfold dec_list_static.
+  destruct (18446744073709551616 <=? Z.of_N n * w); [reflexivity|]. destruct (zlen s <? Z.of_N n * w) eqn:E1; [reflexivity|].
+  destruct (Z.of_N n * w <? zlen s) eqn:E2; [reflexivity|]. exfalso. blia.
+Qed.
+
+Lemma strict_poly_prefix chk t ind r : zlen r <> ind -> decode chk (TPoly t) (ind :: r) = Err.
+Proof.
+  intros H. cbn [decode]. unfold dec_poly. rewrite zlen_cons. destruct (1 + zlen r =? ind + 1) eqn:E; [exfalso; blia|reflexivity].
+Qed.
+
+(* a dynamically sized component whose length prefix exceeds what is left (tuple / struct: the LAST declared field comes first) *)
+Lemma strict_field_prefix chk ts t len r : static_length t = None -> zlen r < len ->
+  decode chk (TTuple (ts ++ [t])) (len :: r) = Err /\ decode chk (TStruct (ts ++ [t])) (len :: r) = Err.
+Proof.
+  intros Hn Hl. cbn [decode]. unfold dec_record. rewrite map_app, rev_app_distr. cbn [map rev app dec_fields].
+  rewrite Hn. cbn [field_header]. destruct (zlen r <? len) eqn:E; [split; reflexivity|exfalso; blia].
+Qed.
+
+Lemma strict_missing_length_indicator chk ts t : static_length t = None ->
+  decode chk (TTuple (ts ++ [t])) [] = Err /\ decode chk (TStruct (ts ++ [t])) [] = Err.
+Proof.
+  intros Hn. cbn [decode]. unfold dec_record. rewrite map_app, rev_app_distr. cbn [map rev app dec_fields].
+  rewrite Hn. cbn [field_header]. split; reflexivity.
+Qed.
+
+(* polynomial with a zero leading coefficient: the otherwise well-formed encoding is rejected *)
+Lemma strict_poly_trailing_zero chk t l :
+  Forall (typed t) l -> last_nonzero l = false ->
+  let ce := encode (TVec t) (VList l) in zlen ce < B64 -> decode chk (TPoly t) (zlen ce :: ce) = Err.
+Proof.
+  intros Hall Hz ce Hl. assert (Ht : typed (TVec t) (VList l)) by (unfold typed; cbn [has_type]; apply forallb_Forall; exact Hall).
+  pose proof (roundtrip chk (TVec t) (VList l) Ht Hl) as R. fold ce in R. cbn [decode] in R.
+  apply obind_ok in R. destruct R as (l' & Hl' & R). inversion R; subst l'.
+  cbn [decode]. unfold dec_poly. rewrite zlen_cons, Z.add_comm, Z.eqb_refl. rewrite Hl'. cbn [obind]. rewrite Hz. reflexivity.
+Qed.
+
+(* encode of a polynomial value does not depend on stored trailing zeros *)
+Lemma strip_zeros_idem l : strip_zeros (strip_zeros l) = strip_zeros l.
+Proof.
+  induction l as [|c r IH]; [reflexivity|]. cbn [strip_zeros]. destruct (strip_zeros r) as [|c' r'] eqn:E.
+  - destruct (value_zero c) eqn:Ez; [reflexivity|]. cbn [strip_zeros]. rewrite Ez. reflexivity.
+  - change (strip_zeros (c :: c' :: r')) with
+      (match strip_zeros (c' :: r') with [] => if value_zero c then [] else [c] | r'' => c :: r'' end).
+    rewrite IH. reflexivity.
+Qed.
+
+Lemma encode_poly_normalises t l : encode (TPoly t) (VList l) = encode (TPoly t) (VList (strip_zeros l)).
+Proof. cbn [encode]. rewrite strip_zeros_idem. reflexivity. Qed.
+
+(* ================================================================ layout (C03) *)
+Definition component (t : ty) (v : value) : list Z := with_prefix (static_length t) (encode t v).
+
+Lemma enc_fields_concat ts vs : length ts = length vs ->
+  enc_fields (encs ts) vs = concat (map (fun tv => component (fst tv) (snd tv)) (combine ts vs)).
+Proof.
+  revert vs. induction ts as [|t ts IH]; intros [|v vs] Hl; try discriminate; [reflexivity|].
+  cbn [encs map enc_fields combine concat fst snd]. fold (encs ts). rewrite IH by (cbn in Hl; lia). reflexivity.
+Qed.
+
+(* tuple and struct components in reverse declaration order, each dynamically sized one prefixed by its length *)
+Lemma layout_record ts vs : length ts = length vs ->
+  encode (TTuple ts) (VList vs) = concat (rev (map (fun tv => component (fst tv) (snd tv)) (combine ts vs)))
+  /\ encode (TStruct ts) (VList vs) = concat (rev (map (fun tv => component (fst tv) (snd tv)) (combine ts vs))).
+Proof.
+  intros Hl. cbn [encode]. fold (encs ts). rewrite encs_rev. rewrite enc_fields_concat by (rewrite !rev_length; exact Hl).
+  rewrite <- map_rev. assert (E : combine (rev ts) (rev vs) = rev (combine ts vs)).
+  { clear -Hl. revert vs Hl. induction ts as [|t ts IH]; intros [|v vs] Hl; try discriminate; [reflexivity|].
+    cbn [rev combine]. rewrite <- IH by (cbn in Hl; lia). cbn in Hl.
+    assert (L : length (rev ts) = length (rev vs)) by (rewrite !rev_length; lia).
+    clear IH Hl. revert L. generalize (rev ts) (rev vs). intros a. induction a as [|x a IHa]; intros [|y b] L; try discriminate; [reflexivity|].
+    cbn [app combine]. rewrite IHa by (cbn in L; lia). reflexivity. }
+  rewrite E. split; reflexivity.
+Qed.
+
+Lemma layout_tuple2 a b x y : encode (TTuple [a; b]) (VList [x; y]) = component b y ++ component a x.
+Proof. cbn [encode map rev app enc_fields]. unfold component. rewrite app_nil_r. reflexivity. Qed.
+
+Lemma layout_tuple3 a b c x y z :
+  encode (TTuple [a; b; c]) (VList [x; y; z]) = component c z ++ component b y ++ component a x.
+Proof. cbn [encode map rev app enc_fields]. unfold component. rewrite app_nil_r. reflexivity. Qed.
+
+(* list items in order; Vec prefixed by the number of items *)
+Lemma layout_vec t l : encode (TVec t) (VList l) = zlen l :: concat (map (component t) l).
+Proof. cbn [encode]. unfold enc_list. rewrite flat_map_concat_map. reflexivity. Qed.
+
+Lemma layout_array n t l : encode (TArray n t) (VList l) = concat (map (component t) l).
+Proof. cbn [encode]. unfold enc_list. rewrite flat_map_concat_map. reflexivity. Qed.
+
+Lemma layout_option t v : encode (TOption t) VNone = [0] /\ encode (TOption t) (VSome v) = 1 :: encode t v.
+Proof. split; reflexivity. Qed.
+
+Lemma layout_poly t l : last_nonzero l = true ->
+  encode (TPoly t) (VList l) = zlen (encode (TVec t) (VList l)) :: encode (TVec t) (VList l).
+Proof. intros H. cbn [encode]. rewrite (strip_zeros_id l H). reflexivity. Qed.
+
+Lemma layout_enum vs d l fs : znth_opt d vs = Some fs -> length fs = length l ->
+  encode (TEnum vs) (VEnum d l) = d :: concat (rev (map (fun tv => component (fst tv) (snd tv)) (combine fs l))).
+Proof.
+  intros Hd Hl. rewrite (encode_enum vs d l fs Hd). f_equal. destruct (layout_record fs l Hl) as [E _]. cbn [encode] in E. exact E.
+Qed.
+
+Lemma layout_u64 z : encode TU64 (VInt z) = [z mod 4294967296; (z / 4294967296) mod 4294967296].
+Proof. cbn [encode]. unfold limb. change (2 ^ (32 * 0)) with 1. change (2 ^ (32 * 1)) with 4294967296. rewrite Z.div_1_r. reflexivity. Qed.
